@@ -205,6 +205,7 @@ def approx(m, run):
     n0 = len(run.obs)
     try:
         _sd.ap3(m, run)
+        _sd.vn2(m, run)        # chord lengths are the real lengths of the chords (vector_magnitude is sqrt(v . v) for every v)
     except AnalysisError as ex:
         run.error(str(ex))
     ok = len(run.obs) > n0 and all(o.ok for o in run.obs[n0:])
